@@ -250,6 +250,15 @@ def attempts(rng, lang, factory, res, count=True):
             f = attempt('dup-in-field', False, model, [x, x] if side == 'left' else [y], [y] if side == 'left' else [x, x])
             if f:
                 return f
+            # ... also when the other field has no member, and when the repetition is not adjacent
+            model, (x, y, z) = fresh([rng.choice(okconc), rng.choice(oconc), rng.choice(okconc)])
+            f = attempt('dup-in-field', False, model, [x, x] if side == 'left' else [], [] if side == 'left' else [x, x])
+            if f:
+                return (f[0] + ':other-field-empty', f[1])
+            if mult['max'] is None or mult['max'] >= 3:
+                f = attempt('dup-in-field', False, model, [x, z, x] if side == 'left' else [y], [y] if side == 'left' else [x, z, x])
+                if f:
+                    return (f[0] + ':not-adjacent', f[1])
         # an already existing link: identical instance, and the pair inside a larger instance
         model, (x, y) = fresh([rng.choice(lconc), rng.choice(rconc)])
         f = attempt('first-link', True, model, [x], [y])
